@@ -52,10 +52,32 @@ class Pool:
     def __init__(self, n=None):
         n = n or int(os.environ.get("VERIF_WORKERS", "14"))
         ctx = mp.get_context("spawn")
-        self.pool = ctx.Pool(n, initializer=_init)
+        # a worker is replaced after a bounded number of tasks: the real library's trace / compilation caches grow with every program, and over
+        # the thousands of programs of the thorough tier a worker would otherwise reach several GB (the kernel then kills it and its task is lost)
+        self.pool = ctx.Pool(n, initializer=_init, maxtasksperchild=int(os.environ.get("VERIF_TASKS_PER_WORKER", "60")))
 
     def map(self, modname, fname, payloads, chunksize=1):
-        return self.pool.imap_unordered(_run, [(modname, fname, p) for p in payloads], chunksize)
+        """results in completion order; a task whose worker died, or that hangs, is reported as an infrastructure error (never as a result)
+        once nothing has completed for VERIF_STALL_SECONDS"""
+        pend = [(p, self.pool.apply_async(_run, ((modname, fname, p),))) for p in payloads]
+        last = time.time()
+        stall = float(os.environ.get("VERIF_STALL_SECONDS", "900"))
+        while pend:
+            progressed = False
+            for item in list(pend):
+                p, a = item
+                if a.ready():
+                    pend.remove(item); progressed = True; last = time.time()
+                    try:
+                        yield a.get()
+                    except BaseException as e:
+                        yield {"infra_error": "worker raised: " + repr(e)[:500], "payload": p}
+            if not progressed:
+                if time.time() - last > stall:
+                    for p, a in pend:
+                        yield {"infra_error": f"task lost or hung: no task completed for {stall:.0f}s (worker killed, e.g. out of memory?)", "payload": p}
+                    return
+                time.sleep(0.05)
 
     def close(self):
         self.pool.terminate()
